@@ -90,6 +90,11 @@ def c11(tier, replay):
         cfg = f"MC_Fringe_{kind}.cfg"
         r = mc("MC_Fringe", cfg, workers=8, require_actions=False)
         chk.add_mc(cfg, r, constants=open(os.path.join(SPEC, cfg)).read().split("\n")[1])
+    # (1b) the algorithm: the hand-written indexed heap of no_duplicate.rs (NoDupHeap.tla) refines Fringe.tla and keeps its invariants
+    r = mc("NoDupHeap", "MC_NoDupHeap.cfg", workers=8, require_actions=False)
+    chk.add_mc("MC_NoDupHeap.cfg", r, constants=open(os.path.join(SPEC, "MC_NoDupHeap.cfg")).read().split("\n")[1])
+    r = simulate("NoDupHeap", "MC_NoDupHeap_sim.cfg", 5000 if not thorough else 60000, 17)
+    chk.add_mc("MC_NoDupHeap_sim.cfg (simulation)", r, constants=open(os.path.join(SPEC, "MC_NoDupHeap_sim.cfg")).read().split("\n")[1] + f"; {r['traces']} random behaviours of depth <= 17")
     # (2) specification -> implementation: every edge of the finite fringe-content graph replayed on the real fringes,
     #     (3) plus seeded random long sequences; every trace validated by TraceFringe
     nrand, rlen = (400, 120) if not thorough else (6000, 200)
